@@ -1,6 +1,1252 @@
 // Contract harnesses for ntp-proto/src/server.rs (child module: sees private items).
-#![allow(unused_imports)]
+// Properties: C15 (access policy), C16 (response <= request), C20 (rate limiting), C21 (statistics),
+// server side of C19 (decrypt failure never yields time) and C22 (handle never panics).
+//
+// Compiled in the TRANSFORMED copy (units have "transform": true): `RandomState` in server.rs is
+// replaced by the shim of verif_common (std's RandomState::new needs getrandom; no other safe
+// constructor exists, so a `Server`/`TimestampedCache` value cannot be built in place).
+//
+// Method: `Server::{handle, handle_inner, intended_action}` are the REAL functions; their callees
+// are replaced by their contracts (kani::stub):
+//   IpFilter::is_in                -> ghost booleans IN_DENY (1st consultation) / IN_ALLOW (2nd) (C31)
+//   TimestampedCache::is_allowed   -> ghost boolean CACHE_RES (C20 proves its contract below)
+//   NtpPacket::deserialize         -> generator: Err(other) | Err(DecryptError(p)) | Ok((p,None)) | Ok((p,Some(cookie)))
+//   NtpPacket::{mode,version}      -> ghost values (the packet is opaque to server.rs)
+//   NtpPacket::{nts_nak,deny,nts_deny,timestamp,nts_timestamp}_response -> recorders
+//   NtpPacket::serialize           -> model: Err, or Ok after advancing the cursor by n <= remaining
+#![allow(unused_imports, dead_code, clippy::all)]
 use super::*;
+use crate::keyset::{DecodedServerCookie, KeySetProvider};
+use crate::nts::AeadAlgorithm;
+use crate::packet::{
+    CipherHolder, CipherProvider, DecryptError, EncryptResult, ExtensionField, NtpAssociationMode,
+};
+use crate::verif_common::harness;
+use std::net::{Ipv4Addr, Ipv6Addr};
+use std::sync::atomic::{AtomicBool, AtomicU64, AtomicU8, AtomicUsize, Ordering::Relaxed};
+
+// ================================================================ ghost state
+fn bump(c: &AtomicU8) {
+    c.store(c.load(Relaxed).saturating_add(1), Relaxed);
+}
+
+// --- filters (contract of IpFilter::is_in: some boolean function of (filter, address); C31)
+static IN_DENY: AtomicBool = AtomicBool::new(false);
+static IN_ALLOW: AtomicBool = AtomicBool::new(false);
+static DENY_CALLS: AtomicU8 = AtomicU8::new(0);
+static ALLOW_CALLS: AtomicU8 = AtomicU8::new(0);
+static OTHER_FILTER_CALLS: AtomicU8 = AtomicU8::new(0);
+static ALLOW_BEFORE_DENY: AtomicBool = AtomicBool::new(false);
+static FILTER_WRONG_IP: AtomicBool = AtomicBool::new(false);
+// the client address the harness passes in (tag 4/6, high and low 64 bits)
+static IP_TAG: AtomicU8 = AtomicU8::new(0);
+static IP_HI: AtomicU64 = AtomicU64::new(0);
+static IP_LO: AtomicU64 = AtomicU64::new(0);
+
+fn ip_key(ip: IpAddr) -> (u8, u64, u64) {
+    match ip {
+        IpAddr::V4(a) => (4, 0, u32::from_be_bytes(a.octets()) as u64),
+        IpAddr::V6(a) => {
+            let v = u128::from_be_bytes(a.octets());
+            (6, (v >> 64) as u64, v as u64)
+        }
+    }
+}
+fn remember_ip(ip: IpAddr) {
+    let (t, h, l) = ip_key(ip);
+    IP_TAG.store(t, Relaxed);
+    IP_HI.store(h, Relaxed);
+    IP_LO.store(l, Relaxed);
+}
+fn is_remembered_ip(ip: IpAddr) -> bool {
+    ip_key(ip) == (IP_TAG.load(Relaxed), IP_HI.load(Relaxed), IP_LO.load(Relaxed))
+}
+
+fn is_in_stub(_this: &IpFilter, addr: IpAddr) -> bool {
+    // Which filter is asked is decided by CALL ORDER: the first consultation is answered with the
+    // deny-list verdict, the second with the allow-list verdict (telling the two filter objects
+    // apart by address needs a pointer-to-integer cast, which makes CBMC's memory model explode).
+    // That the first consultation really is `self.denyfilter` is pinned by an anchor in the unit.
+    if !is_remembered_ip(addr) {
+        FILTER_WRONG_IP.store(true, Relaxed);
+    }
+    let k = DENY_CALLS.load(Relaxed) + ALLOW_CALLS.load(Relaxed);
+    if k == 0 {
+        bump(&DENY_CALLS);
+        IN_DENY.load(Relaxed)
+    } else if k == 1 {
+        bump(&ALLOW_CALLS);
+        IN_ALLOW.load(Relaxed)
+    } else {
+        bump(&OTHER_FILTER_CALLS);
+        kani::any()
+    }
+}
+
+// --- rate-limit cache (contract of TimestampedCache::is_allowed: some boolean; proved under C20)
+static CACHE_RES: AtomicBool = AtomicBool::new(false);
+static CACHE_CALLS: AtomicU8 = AtomicU8::new(0);
+static CACHE_CALL_BEFORE_LISTS_PASSED: AtomicBool = AtomicBool::new(false);
+
+fn is_allowed_stub<T: std::hash::Hash + Eq>(
+    _this: &mut TimestampedCache<T>,
+    _item: T,
+    _timestamp: Instant,
+    _cutoff: Duration,
+) -> bool {
+    let lists_passed = DENY_CALLS.load(Relaxed) == 1
+        && ALLOW_CALLS.load(Relaxed) == 1
+        && !IN_DENY.load(Relaxed)
+        && IN_ALLOW.load(Relaxed);
+    if !lists_passed {
+        CACHE_CALL_BEFORE_LISTS_PASSED.store(true, Relaxed);
+    }
+    bump(&CACHE_CALLS);
+    CACHE_RES.load(Relaxed)
+}
+
+// --- parser generator (contract of NtpPacket::deserialize, proved on the packet side C22/C23/C25):
+//   returns Err(non-decrypt error) | Err(DecryptError(packet)) | Ok((packet, None)) | Ok((packet, Some(cookie)));
+//   a DecryptError or a cookie only ever come with a V4 or V5 packet (the V3 arm has no extension fields).
+const GEN_ERR: u8 = 0;
+const GEN_DECRYPT_ERR: u8 = 1;
+const GEN_PLAIN: u8 = 2;
+const GEN_NTS: u8 = 3;
+static GEN_KIND: AtomicU8 = AtomicU8::new(0);
+// Case split (complete): every `handle` harness exists twice, for the parser outcomes without a
+// cookie (GEN_ERR | GEN_DECRYPT_ERR | GEN_PLAIN: "plain family") and for Ok((packet, Some(cookie)))
+// ("nts family"). The flag is a concrete constant per harness so that CBMC prunes the
+// Box<dyn Cipher> construction/drop glue (very expensive) from the plain family.
+static FAMILY_NTS: AtomicBool = AtomicBool::new(false);
+static DESER_CALLS: AtomicU8 = AtomicU8::new(0);
+// mode() / version() of the generated packet
+static MODE: AtomicU8 = AtomicU8::new(0);
+static VERSION: AtomicU8 = AtomicU8::new(0);
+const S2C_TAG: u8 = 0x5c;
+const C2S_TAG: u8 = 0xc5;
+
+struct GhostCipher {
+    key: [u8; 1],
+}
+impl zeroize::ZeroizeOnDrop for GhostCipher {}
+impl Cipher for GhostCipher {
+    fn encrypt(&self, _b: &mut [u8], _l: usize, _a: &[u8]) -> std::io::Result<EncryptResult> {
+        Err(std::io::ErrorKind::Other.into())
+    }
+    fn decrypt(&self, _n: &[u8], _c: &[u8], _a: &[u8]) -> Result<Vec<u8>, DecryptError> {
+        Err(DecryptError)
+    }
+    fn key_bytes(&self) -> &[u8] {
+        &self.key
+    }
+}
+fn ghost_cookie() -> DecodedServerCookie {
+    DecodedServerCookie {
+        algorithm: AeadAlgorithm::AeadAesSivCmac256,
+        s2c: Box::new(GhostCipher { key: [S2C_TAG] }),
+        c2s: Box::new(GhostCipher { key: [C2S_TAG] }),
+    }
+}
+
+fn deser_gen<'a>(
+    _data: &'a [u8],
+    _cipher: &(impl CipherProvider + ?Sized),
+) -> Result<(NtpPacket<'a>, Option<DecodedServerCookie>), PacketParsingError<'a>>
+where
+    'a: 'a,
+{
+    bump(&DESER_CALLS);
+    if FAMILY_NTS.load(Relaxed) {
+        return Ok((NtpPacket::default(), Some(ghost_cookie())));
+    }
+    match GEN_KIND.load(Relaxed) {
+        GEN_ERR => {
+            let w: u8 = kani::any();
+            Err(match w % 6 {
+                0 => PacketParsingError::InvalidVersion(kani::any()),
+                1 => PacketParsingError::IncorrectLength,
+                2 => PacketParsingError::MalformedNtsExtensionFields,
+                3 => PacketParsingError::MalformedNonce,
+                4 => PacketParsingError::MalformedCookiePlaceholder,
+                _ => PacketParsingError::V5(crate::packet::v5::V5Error::InvalidDraftIdentification),
+            })
+        }
+        GEN_DECRYPT_ERR => Err(PacketParsingError::DecryptError(NtpPacket::default())),
+        _ => Ok((NtpPacket::default(), None)),
+    }
+}
+
+fn mode_of(code: u8) -> NtpAssociationMode {
+    match code {
+        0 => NtpAssociationMode::Reserved,
+        1 => NtpAssociationMode::SymmetricActive,
+        2 => NtpAssociationMode::SymmetricPassive,
+        3 => NtpAssociationMode::Client,
+        4 => NtpAssociationMode::Server,
+        5 => NtpAssociationMode::Broadcast,
+        6 => NtpAssociationMode::Control,
+        _ => NtpAssociationMode::Private,
+    }
+}
+fn version_of(code: u8) -> NtpVersion {
+    match code {
+        3 => NtpVersion::V3,
+        4 => NtpVersion::V4,
+        _ => NtpVersion::V5,
+    }
+}
+fn mode_stub<'a>(_p: &NtpPacket<'a>) -> NtpAssociationMode
+where
+    'a: 'a,
+{
+    mode_of(MODE.load(Relaxed))
+}
+fn version_stub<'a>(_p: &NtpPacket<'a>) -> NtpVersion
+where
+    'a: 'a,
+{
+    version_of(VERSION.load(Relaxed))
+}
+
+// --- response builders: recorders (the real V4/V5 kiss builders make Kani 0.68 ICE, intrinsics.rs:243;
+// their own contracts are C18's). BUILT = the builder that ran.
+const B_NONE: u8 = 0;
+const B_NTS_NAK: u8 = 1;
+const B_DENY: u8 = 2;
+const B_NTS_DENY: u8 = 3;
+const B_TIME: u8 = 4;
+const B_NTS_TIME: u8 = 5;
+static BUILT: AtomicU8 = AtomicU8::new(B_NONE);
+static BUILD_CALLS: AtomicU8 = AtomicU8::new(0);
+static BUILD_COOKIE_TAG: AtomicU8 = AtomicU8::new(0);
+
+fn built(code: u8) {
+    bump(&BUILD_CALLS);
+    BUILT.store(code, Relaxed);
+}
+fn nts_nak_rec<'a>(_p: NtpPacket<'a>) -> NtpPacket<'a>
+where
+    'a: 'a,
+{
+    built(B_NTS_NAK);
+    NtpPacket::default()
+}
+fn deny_rec<'a>(_p: NtpPacket<'a>) -> NtpPacket<'a>
+where
+    'a: 'a,
+{
+    built(B_DENY);
+    NtpPacket::default()
+}
+fn nts_deny_rec<'a>(_p: NtpPacket<'a>) -> NtpPacket<'a>
+where
+    'a: 'a,
+{
+    built(B_NTS_DENY);
+    NtpPacket::default()
+}
+fn timestamp_rec<'a, C: NtpClock>(
+    _server_info: NtpServerInfo,
+    _input: NtpPacket<'a>,
+    _recv_timestamp: NtpTimestamp,
+    _clock: &C,
+) -> NtpPacket<'a>
+where
+    'a: 'a,
+{
+    built(B_TIME);
+    NtpPacket::default()
+}
+fn nts_timestamp_rec<'a, C: NtpClock>(
+    _server_info: NtpServerInfo,
+    _input: NtpPacket<'a>,
+    _recv_timestamp: NtpTimestamp,
+    _clock: &C,
+    cookie: &DecodedServerCookie,
+    _keyset: &KeySet,
+) -> NtpPacket<'a>
+where
+    'a: 'a,
+{
+    built(B_NTS_TIME);
+    BUILD_COOKIE_TAG.store(cookie.s2c.key_bytes()[0], Relaxed);
+    NtpPacket::default()
+}
+
+// --- serializer model (contract of NtpPacket::serialize on a Cursor<&mut [u8]>: it only appends;
+//     on Ok the position advanced by some n <= remaining; on Err nothing is promised)
+static SER_OK: AtomicBool = AtomicBool::new(false);
+static SER_N: AtomicUsize = AtomicUsize::new(0);
+static SER_CALLS: AtomicU8 = AtomicU8::new(0);
+static SER_CIPHER_TAG: AtomicU8 = AtomicU8::new(0); // 0 = no cipher
+static SER_DESIRED_SOME: AtomicBool = AtomicBool::new(false);
+static SER_DESIRED: AtomicUsize = AtomicUsize::new(0);
+
+fn serialize_model<'a>(
+    _this: &NtpPacket<'a>,
+    w: &mut Cursor<&mut [u8]>,
+    cipher: &(impl CipherProvider + ?Sized),
+    desired_size: Option<usize>,
+) -> std::io::Result<()>
+where
+    'a: 'a,
+{
+    bump(&SER_CALLS);
+    let tag = match cipher.get(&[]) {
+        Some(h) => {
+            let c: &dyn Cipher = h.as_ref();
+            c.key_bytes()[0]
+        }
+        None => 0,
+    };
+    SER_CIPHER_TAG.store(tag, Relaxed);
+    SER_DESIRED_SOME.store(desired_size.is_some(), Relaxed);
+    SER_DESIRED.store(desired_size.unwrap_or(0), Relaxed);
+    let pos = w.position() as usize;
+    let remaining = w.get_ref().len().saturating_sub(pos);
+    let n = SER_N.load(Relaxed);
+    if !SER_OK.load(Relaxed) || n > remaining {
+        return Err(std::io::ErrorKind::WriteZero.into());
+    }
+    w.set_position((pos + n) as u64);
+    Ok(())
+}
+
+// --- statistics recorder
+static REG_CALLS: AtomicU8 = AtomicU8::new(0);
+static REG_VERSION: AtomicU8 = AtomicU8::new(0);
+static REG_NTS: AtomicBool = AtomicBool::new(false);
+static REG_REASON: AtomicU8 = AtomicU8::new(0);
+static REG_RESPONSE: AtomicU8 = AtomicU8::new(0);
+const R_RATELIMIT: u8 = 1;
+const R_PARSE: u8 = 2;
+const R_CRYPTO: u8 = 3;
+const R_INTERNAL: u8 = 4;
+const R_POLICY: u8 = 5;
+const S_NAK: u8 = 1;
+const S_DENY: u8 = 2;
+const S_IGNORE: u8 = 3;
+const S_TIME: u8 = 4;
+struct RecStats;
+impl ServerStatHandler for RecStats {
+    fn register(&mut self, version: u8, nts: bool, reason: ServerReason, response: ServerResponse) {
+        bump(&REG_CALLS);
+        REG_VERSION.store(version, Relaxed);
+        REG_NTS.store(nts, Relaxed);
+        REG_REASON.store(
+            match reason {
+                ServerReason::RateLimit => R_RATELIMIT,
+                ServerReason::ParseError => R_PARSE,
+                ServerReason::InvalidCrypto => R_CRYPTO,
+                ServerReason::InternalError => R_INTERNAL,
+                ServerReason::Policy => R_POLICY,
+            },
+            Relaxed,
+        );
+        REG_RESPONSE.store(
+            match response {
+                ServerResponse::NTSNak => S_NAK,
+                ServerResponse::Deny => S_DENY,
+                ServerResponse::Ignore => S_IGNORE,
+                ServerResponse::ProvideTime => S_TIME,
+            },
+            Relaxed,
+        );
+    }
+}
+
+// --- clock (assumption: reading the clock succeeds; `timestamp_response` does `.expect(..)`)
+#[derive(Clone)]
+struct AnyClock;
+impl NtpClock for AnyClock {
+    type Error = std::io::Error;
+    fn now(&self) -> Result<NtpTimestamp, Self::Error> {
+        Ok(NtpTimestamp::from_bits(kani::any()))
+    }
+    fn set_frequency(&self, _f: f64) -> Result<NtpTimestamp, Self::Error> {
+        Err(std::io::ErrorKind::Other.into())
+    }
+    fn get_frequency(&self) -> Result<f64, Self::Error> {
+        Err(std::io::ErrorKind::Other.into())
+    }
+    fn step_clock(&self, _o: NtpDuration) -> Result<NtpTimestamp, Self::Error> {
+        Err(std::io::ErrorKind::Other.into())
+    }
+    fn disable_ntp_algorithm(&self) -> Result<(), Self::Error> {
+        Err(std::io::ErrorKind::Other.into())
+    }
+    fn error_estimate_update(&self, _e: NtpDuration, _m: NtpDuration) -> Result<(), Self::Error> {
+        Err(std::io::ErrorKind::Other.into())
+    }
+    fn status_update(&self, _l: NtpLeapIndicator) -> Result<(), Self::Error> {
+        Err(std::io::ErrorKind::Other.into())
+    }
+}
+use crate::packet::NtpLeapIndicator;
+use crate::time_types::NtpDuration;
+
+// ================================================================ generators
+fn any_ip() -> IpAddr {
+    if kani::any() {
+        IpAddr::V4(Ipv4Addr::from(kani::any::<[u8; 4]>()))
+    } else {
+        IpAddr::V6(Ipv6Addr::from(kani::any::<[u8; 16]>()))
+    }
+}
+fn any_filter_action() -> FilterAction {
+    if kani::any() {
+        FilterAction::Ignore
+    } else {
+        FilterAction::Deny
+    }
+}
+fn any_duration() -> Duration {
+    let n: u32 = kani::any();
+    kani::assume(n < 1_000_000_000);
+    Duration::new(kani::any(), n)
+}
+/// every accepted-version list of length <= 3 (all subsets, orders, duplicates)
+fn any_version() -> NtpVersion {
+    let c: u8 = kani::any();
+    kani::assume(c >= 3 && c <= 5);
+    version_of(c)
+}
+/// plain copy of the configuration fields the postconditions mention (ServerConfig::clone of the
+/// empty subnet vectors trips CBMC's allocator checks, so the harness keeps its own copy)
+#[derive(Clone, Copy, PartialEq, Eq)]
+struct CfgSnap {
+    deny_action: FilterAction,
+    allow_action: FilterAction,
+    require_nts: Option<FilterAction>,
+    n_versions: usize,
+    versions: [NtpVersion; 3],
+    cutoff: Duration,
+}
+fn any_config() -> (ServerConfig, CfgSnap) {
+    // accepted versions: literal + truncate: no reallocation, no loop (Vec growth is very expensive in CBMC)
+    let n: usize = kani::any();
+    kani::assume(n <= 3);
+    let versions = [any_version(), any_version(), any_version()];
+    let mut v = vec![versions[0], versions[1], versions[2]];
+    v.truncate(n);
+    let snap = CfgSnap {
+        deny_action: any_filter_action(),
+        allow_action: any_filter_action(),
+        require_nts: if kani::any() { Some(any_filter_action()) } else { None },
+        n_versions: n,
+        versions,
+        cutoff: any_duration(),
+    };
+    (
+        ServerConfig {
+            denylist: FilterList { filter: vec![], action: snap.deny_action },
+            allowlist: FilterList { filter: vec![], action: snap.allow_action },
+            rate_limiting_cache_size: kani::any(),
+            rate_limiting_cutoff: snap.cutoff,
+            require_nts: snap.require_nts,
+            accepted_versions: v,
+        },
+        snap,
+    )
+}
+fn config_unchanged(c: &ServerConfig, s: &CfgSnap) -> bool {
+    c.denylist.action == s.deny_action
+        && c.allowlist.action == s.allow_action
+        && c.denylist.filter.is_empty()
+        && c.allowlist.filter.is_empty()
+        && c.require_nts == s.require_nts
+        && c.rate_limiting_cutoff == s.cutoff
+        && c.accepted_versions.len() == s.n_versions
+}
+fn empty_keyset() -> Arc<KeySet> {
+    // header: time 0, id_offset 0, primary 0, len 0  (the keyset is only handed to stubbed callees)
+    let bytes = [0u8; 20];
+    let mut r: &[u8] = &bytes;
+    KeySetProvider::load(&mut r, 0).unwrap().0.get()
+}
+fn any_server(cache_len: usize) -> (Server<AnyClock>, CfgSnap) {
+    let mut elements = vec![None, None, None];
+    elements.truncate(cache_len);
+    let (config, snap) = any_config();
+    // IpFilter::new is the only constructor and costs CBMC ~30 s per call: build once, clone
+    // (the contents are never read: IpFilter::is_in is replaced by its contract)
+    let filter = IpFilter::new(&[]);
+    (Server {
+        config,
+        clock: AnyClock,
+        denyfilter: filter.clone(),
+        allowfilter: filter,
+        client_cache: TimestampedCache { randomstate: RandomState::new(), elements },
+        server_info: Arc::new(RwLock::new(NtpServerInfo::default())),
+        keyset: empty_keyset(),
+    }, snap)
+}
+/// fix the ghost inputs (arbitrary) and tell the filter stub which filter is which
+fn arm_ghosts(s: &Server<AnyClock>, ip: IpAddr, nts_family: bool) {
+    let _ = s;
+    IN_DENY.store(kani::any(), Relaxed);
+    IN_ALLOW.store(kani::any(), Relaxed);
+    CACHE_RES.store(kani::any(), Relaxed);
+    remember_ip(ip);
+    FAMILY_NTS.store(nts_family, Relaxed);
+    let g: u8 = if nts_family { GEN_NTS } else { kani::any() };
+    kani::assume(g <= 3 && (g == GEN_NTS) == nts_family);
+    GEN_KIND.store(g, Relaxed);
+    let m: u8 = kani::any();
+    kani::assume(m <= 7);
+    MODE.store(m, Relaxed);
+    let v: u8 = kani::any();
+    kani::assume(v >= 3 && v <= 5);
+    // contract of the parser: NTS outcomes (cookie / decrypt error) never come with a V3 packet
+    kani::assume(!(g == GEN_DECRYPT_ERR || g == GEN_NTS) || v != 3);
+    VERSION.store(v, Relaxed);
+    SER_OK.store(kani::any(), Relaxed);
+    SER_N.store(kani::any(), Relaxed);
+}
+
+/// what the access lists say, from the statement: deny list first, then allow list
+#[derive(PartialEq, Eq, Clone, Copy)]
+enum ListVerdict {
+    Ignore,
+    Deny,
+    Pass,
+}
+fn spec_lists(cfg: &CfgSnap) -> ListVerdict {
+    let act = |a: FilterAction| match a {
+        FilterAction::Ignore => ListVerdict::Ignore,
+        FilterAction::Deny => ListVerdict::Deny,
+    };
+    if IN_DENY.load(Relaxed) {
+        act(cfg.deny_action)
+    } else if !IN_ALLOW.load(Relaxed) {
+        act(cfg.allow_action)
+    } else {
+        ListVerdict::Pass
+    }
+}
+fn version_accepted(cfg: &CfgSnap) -> bool {
+    let v = version_of(VERSION.load(Relaxed));
+    (cfg.n_versions > 0 && cfg.versions[0] == v)
+        || (cfg.n_versions > 1 && cfg.versions[1] == v)
+        || (cfg.n_versions > 2 && cfg.versions[2] == v)
+}
+
+/// Result of one call of the real `Server::handle` under the callee contracts.
+struct Run {
+    cfg: CfgSnap,
+    responded: bool,
+    msg_len: usize,
+    msg_is_buffer_prefix: bool,
+    buf_len: usize,
+    req_len: usize,
+    first_byte_version: u8,
+}
+const MSG_MAX: usize = 8; // request/buffer bytes are opaque to server.rs (only byte 0 and the lengths are read)
+fn run_handle(request_sized_buffer: bool, nts_family: bool) -> Run {
+    let (mut srv, cfg) = any_server(0);
+    let ip = any_ip();
+    arm_ghosts(&srv, ip, nts_family);
+    let msg: [u8; MSG_MAX] = kani::any();
+    let req_len: usize = kani::any();
+    kani::assume(req_len <= MSG_MAX);
+    let mut buf = [0u8; MSG_MAX];
+    let buf_len: usize = if request_sized_buffer { req_len } else { kani::any() };
+    kani::assume(buf_len <= MSG_MAX);
+    let buf_ptr = buf.as_ptr();
+    let mut stats = RecStats;
+    let first_byte_version = if req_len == 0 { 0 } else { (msg[0] >> 3) & 7 };
+    let action = srv.handle(
+        ip,
+        NtpTimestamp::from_bits(kani::any()),
+        &msg[..req_len],
+        &mut buf[..buf_len],
+        &mut stats,
+    );
+    let (responded, msg_len, prefix) = match action {
+        ServerAction::Ignore => (false, 0, true),
+        ServerAction::Respond { message } => (true, message.len(), message.as_ptr() == buf_ptr),
+    };
+    Run {
+        cfg,
+        responded,
+        msg_len,
+        msg_is_buffer_prefix: prefix,
+        buf_len,
+        req_len,
+        first_byte_version,
+    }
+}
+fn built_time() -> bool {
+    let b = BUILT.load(Relaxed);
+    b == B_TIME || b == B_NTS_TIME
+}
+
+/// attribute bundle shared by all `handle` harnesses
+macro_rules! handle_harness_one {
+    ($fam:ident = $val:expr; $(#[$m:meta])* fn $name:ident() $body:block) => {
+        harness! {
+            #[kani::unwind(18)]
+            #[kani::stub(IpFilter::is_in, is_in_stub)]
+            #[kani::stub(TimestampedCache::is_allowed, is_allowed_stub)]
+            #[kani::stub(NtpPacket::deserialize, deser_gen)]
+            #[kani::stub(NtpPacket::mode, mode_stub)]
+            #[kani::stub(NtpPacket::version, version_stub)]
+            #[kani::stub(NtpPacket::nts_nak_response, nts_nak_rec)]
+            #[kani::stub(NtpPacket::deny_response, deny_rec)]
+            #[kani::stub(NtpPacket::nts_deny_response, nts_deny_rec)]
+            #[kani::stub(NtpPacket::timestamp_response, timestamp_rec)]
+            #[kani::stub(NtpPacket::nts_timestamp_response, nts_timestamp_rec)]
+            #[kani::stub(NtpPacket::serialize, serialize_model)]
+            $(#[$m])*
+            fn $name() {
+                #[allow(unused_variables)]
+                let $fam: bool = $val;
+                $body
+            }
+        }
+    };
+}
+/// one body, two harnesses: `$plain` (parser outcomes without cookie) and `$nts` (cookie decoded)
+macro_rules! handle_harness {
+    ($(#[$m:meta])* fn $plain:ident() fn $nts:ident() with $fam:ident $body:block) => {
+        handle_harness_one! { $fam = false; $(#[$m])* fn $plain() $body }
+        handle_harness_one! { $fam = true; $(#[$m])* fn $nts() $body }
+    };
+}
+/// cover that only makes sense in one family (trivially satisfied in the other)
+macro_rules! cover_fam {
+    ($fam:ident, $want:expr, $cond:expr, $msg:expr) => {
+        kani::cover!(if $fam == $want { $cond } else { true }, $msg)
+    };
+}
+
+// ================================================================ C15 access policy
+harness! {
+    // intended_action: the complete decision table, and the order of consultation.
+    #[kani::unwind(18)]
+    #[kani::stub(IpFilter::is_in, is_in_stub)]
+    #[kani::stub(TimestampedCache::is_allowed, is_allowed_stub)]
+    fn c15_p_intended_action_table() {
+        let (mut srv, cfg) = any_server(0);
+        let ip = any_ip();
+        arm_ghosts(&srv, ip, false);
+        let (resp, reason) = srv.intended_action(ip);
+        let in_deny = IN_DENY.load(Relaxed);
+        let in_allow = IN_ALLOW.load(Relaxed);
+        let cache_ok = CACHE_RES.load(Relaxed);
+        if in_deny {
+            assert!(resp == ServerResponse::from(cfg.deny_action) && reason == ServerReason::Policy);
+        } else if !in_allow {
+            assert!(resp == ServerResponse::from(cfg.allow_action) && reason == ServerReason::Policy);
+        } else if !cache_ok {
+            assert!(resp == ServerResponse::Ignore && reason == ServerReason::RateLimit);
+        } else {
+            assert!(resp == ServerResponse::ProvideTime && reason == ServerReason::Policy);
+        }
+        // FilterAction -> ServerResponse is the obvious map
+        assert!(ServerResponse::from(FilterAction::Ignore) == ServerResponse::Ignore);
+        assert!(ServerResponse::from(FilterAction::Deny) == ServerResponse::Deny);
+        // order and frame: deny list first, the allow list only after a deny-list miss, the
+        // cache (C20) only after both lists passed; always with the client's address
+        assert!(DENY_CALLS.load(Relaxed) == 1 && !ALLOW_BEFORE_DENY.load(Relaxed));
+        assert!(ALLOW_CALLS.load(Relaxed) == if in_deny { 0 } else { 1 });
+        assert!(CACHE_CALLS.load(Relaxed) == if !in_deny && in_allow { 1 } else { 0 });
+        assert!(!CACHE_CALL_BEFORE_LISTS_PASSED.load(Relaxed));
+        assert!(OTHER_FILTER_CALLS.load(Relaxed) == 0 && !FILTER_WRONG_IP.load(Relaxed));
+        assert!(config_unchanged(&srv.config, &cfg));
+        kani::cover!(in_deny && resp == ServerResponse::Deny, "deny-list hit with deny action");
+        kani::cover!(!in_deny && !in_allow && resp == ServerResponse::Ignore, "allow-list miss, ignore");
+        kani::cover!(reason == ServerReason::RateLimit, "rate limited");
+        kani::cover!(resp == ServerResponse::ProvideTime, "accepted");
+    }
+}
+
+harness! {
+    #[kani::unwind(18)]
+    #[kani::stub(IpFilter::is_in, is_in_stub)]
+    #[kani::stub(TimestampedCache::is_allowed, is_allowed_stub)]
+    fn c15_canary_intended_action_never_accepts() {
+        let (mut srv, _cfg) = any_server(0);
+        let ip = any_ip();
+        arm_ghosts(&srv, ip, false);
+        let (resp, _reason) = srv.intended_action(ip);
+        assert!(resp != ServerResponse::ProvideTime, "CANARY: must be refuted");
+    }
+}
+
+handle_harness! {
+    // listed clients: Ignore => nothing; Deny => at most a DENY kiss; never time. Deny list wins.
+    fn c15_tp_handle_lists_plain() fn c15_tp_handle_lists_nts() with fam {
+        let r = run_handle(false, fam);
+        let verdict = spec_lists(&r.cfg);
+        let b = BUILT.load(Relaxed);
+        if verdict == ListVerdict::Ignore {
+            assert!(!r.responded, "ignore action: the client receives nothing");
+            assert!(b == B_NONE && DESER_CALLS.load(Relaxed) == 0 && SER_CALLS.load(Relaxed) == 0);
+        }
+        if verdict == ListVerdict::Deny {
+            assert!(b == B_NONE || b == B_DENY || b == B_NTS_DENY, "deny action: at most a DENY kiss");
+            assert!(!built_time(), "denied client never receives time");
+            if r.responded {
+                assert!(REG_RESPONSE.load(Relaxed) == S_DENY);
+            }
+        }
+        // the rate limiter is consulted only for clients that passed both lists (C20 position)
+        assert!(CACHE_CALLS.load(Relaxed) == if verdict == ListVerdict::Pass { 1 } else { 0 });
+        assert!(!CACHE_CALL_BEFORE_LISTS_PASSED.load(Relaxed) && !ALLOW_BEFORE_DENY.load(Relaxed));
+        assert!(!FILTER_WRONG_IP.load(Relaxed) && OTHER_FILTER_CALLS.load(Relaxed) == 0);
+        // rate-limited clients get no answer
+        if verdict == ListVerdict::Pass && !CACHE_RES.load(Relaxed) {
+            assert!(!r.responded && b == B_NONE);
+        }
+        kani::cover!(verdict == ListVerdict::Deny && r.responded, "DENY kiss sent");
+        kani::cover!(verdict == ListVerdict::Ignore, "ignored by list");
+        kani::cover!(IN_DENY.load(Relaxed) && IN_ALLOW.load(Relaxed) && verdict == ListVerdict::Deny, "deny list wins over allow list");
+    }
+}
+
+handle_harness! {
+    // malformed datagrams and non-accepted versions are never answered; plain requests never get time under require_nts
+    fn c15_tp_handle_gating_plain() fn c15_tp_handle_gating_nts() with fam {
+        let r = run_handle(false, fam);
+        let g = GEN_KIND.load(Relaxed);
+        if g == GEN_ERR {
+            assert!(!r.responded && BUILT.load(Relaxed) == B_NONE, "parse error: never answered");
+        }
+        if DESER_CALLS.load(Relaxed) == 1 && g != GEN_ERR && !version_accepted(&r.cfg) {
+            assert!(!r.responded && BUILT.load(Relaxed) == B_NONE, "non-accepted version: never answered");
+        }
+        if r.cfg.require_nts.is_some() && g == GEN_PLAIN {
+            assert!(!built_time(), "plain request never receives time when NTS is required");
+            if r.cfg.require_nts == Some(FilterAction::Ignore) {
+                assert!(!r.responded);
+            }
+            if r.responded {
+                assert!(BUILT.load(Relaxed) == B_DENY && REG_RESPONSE.load(Relaxed) == S_DENY);
+            }
+        }
+        cover_fam!(fam, false, g == GEN_ERR, "parse error");
+        cover_fam!(fam, false, g == GEN_PLAIN && r.cfg.require_nts == Some(FilterAction::Deny) && r.responded, "require_nts deny answered");
+        cover_fam!(fam, true, g == GEN_NTS && !version_accepted(&r.cfg), "nts request in non-accepted version");
+    }
+}
+
+handle_harness! {
+    // statement: "non-client packets ... are never answered" (every parser outcome that yields a packet)
+    fn c15_tp_handle_nonclient_never_answered_plain() fn c15_tp_handle_nonclient_never_answered_nts() with fam {
+        let r = run_handle(false, fam);
+        let g = GEN_KIND.load(Relaxed);
+        if DESER_CALLS.load(Relaxed) == 1 && g != GEN_ERR && MODE.load(Relaxed) != 3 {
+            assert!(!r.responded, "non-client packet: never answered");
+            assert!(BUILT.load(Relaxed) == B_NONE, "non-client packet: no response built");
+        }
+        cover_fam!(fam, false, g == GEN_PLAIN && MODE.load(Relaxed) == 4, "server-mode packet");
+        cover_fam!(fam, false, g == GEN_DECRYPT_ERR && MODE.load(Relaxed) == 4, "server-mode packet with failing NTS fields");
+    }
+}
+
+handle_harness! {
+    // positive clause: well-formed accepted-version client request passing both lists and the limiter receives time
+    fn c15_tp_handle_serves_time_plain() fn c15_tp_handle_serves_time_nts() with fam {
+        let r = run_handle(false, fam);
+        let g = GEN_KIND.load(Relaxed);
+        let eligible = spec_lists(&r.cfg) == ListVerdict::Pass
+            && CACHE_RES.load(Relaxed)
+            && (g == GEN_PLAIN || g == GEN_NTS)
+            && MODE.load(Relaxed) == 3
+            && version_accepted(&r.cfg)
+            && (g == GEN_NTS || r.cfg.require_nts.is_none());
+        if eligible {
+            assert!(BUILT.load(Relaxed) == if g == GEN_NTS { B_NTS_TIME } else { B_TIME });
+            assert!(BUILD_CALLS.load(Relaxed) == 1 && SER_CALLS.load(Relaxed) == 1);
+            // the V5 padding target is the request length
+            assert!(SER_DESIRED_SOME.load(Relaxed) && SER_DESIRED.load(Relaxed) == r.req_len);
+            if SER_OK.load(Relaxed) && SER_N.load(Relaxed) <= r.buf_len {
+                assert!(r.responded && r.msg_len == SER_N.load(Relaxed));
+                assert!(REG_RESPONSE.load(Relaxed) == S_TIME && REG_REASON.load(Relaxed) == R_POLICY);
+            }
+        }
+        // and conversely time is built only for eligible requests
+        if built_time() {
+            assert!(eligible);
+        }
+        cover_fam!(fam, true, eligible && g == GEN_NTS && r.responded, "NTS time served");
+        cover_fam!(fam, false, eligible && g == GEN_PLAIN && r.responded, "plain time served");
+    }
+}
+
+handle_harness! {
+    fn c15_canary_time_never_served_plain() fn c15_canary_time_never_served_nts() with fam {
+        let _r = run_handle(false, fam);
+        assert!(!built_time(), "CANARY: must be refuted");
+    }
+}
+handle_harness! {
+    fn c15_canary_denied_never_answered_plain() fn c15_canary_denied_never_answered_nts() with fam {
+        let r = run_handle(false, fam);
+        if spec_lists(&r.cfg) == ListVerdict::Deny {
+            assert!(!r.responded, "CANARY: must be refuted");
+        }
+    }
+}
+
+// ================================================================ C16 response <= request
+handle_harness! {
+    // any buffer: the message is a prefix of the caller's buffer
+    fn c16_tp_message_is_buffer_prefix_plain() fn c16_tp_message_is_buffer_prefix_nts() with fam {
+        let r = run_handle(false, fam);
+        if r.responded {
+            assert!(r.msg_is_buffer_prefix && r.msg_len <= r.buf_len);
+        }
+        kani::cover!(r.responded && r.msg_len == r.buf_len && r.buf_len > 0, "buffer filled completely");
+        kani::cover!(r.responded && r.msg_len < r.buf_len, "shorter answer");
+    }
+}
+handle_harness! {
+    // the daemon's call shape (anchor): buffer.len() == request length  =>  answer <= request
+    fn c16_tp_request_sized_buffer_plain() fn c16_tp_request_sized_buffer_nts() with fam {
+        let r = run_handle(true, fam);
+        if r.responded {
+            assert!(r.msg_len <= r.req_len, "answer never longer than the request");
+        }
+        kani::cover!(r.responded && r.msg_len == r.req_len && r.req_len == MSG_MAX, "answer as long as the request");
+    }
+}
+handle_harness! {
+    fn c16_canary_strictly_shorter_plain() fn c16_canary_strictly_shorter_nts() with fam {
+        let r = run_handle(true, fam);
+        if r.responded {
+            assert!(r.msg_len < r.req_len, "CANARY: must be refuted");
+        }
+    }
+}
+
+// ================================================================ C21 statistics
+handle_harness! {
+    // exactly one registration; kind matches what was done
+    fn c21_tp_exactly_one_matching_registration_plain() fn c21_tp_exactly_one_matching_registration_nts() with fam {
+        let r = run_handle(false, fam);
+        assert!(REG_CALLS.load(Relaxed) == 1, "exactly one statistics entry per datagram");
+        let resp = REG_RESPONSE.load(Relaxed);
+        let b = BUILT.load(Relaxed);
+        // response kind <=> what was actually done
+        assert!(r.responded == (resp != S_IGNORE));
+        assert!((resp == S_TIME) == (r.responded && (b == B_TIME || b == B_NTS_TIME)));
+        assert!((resp == S_DENY) == (r.responded && (b == B_DENY || b == B_NTS_DENY)));
+        assert!((resp == S_NAK) == (r.responded && b == B_NTS_NAK));
+        assert!(BUILD_CALLS.load(Relaxed) <= 1 && SER_CALLS.load(Relaxed) <= 1 && DESER_CALLS.load(Relaxed) <= 1);
+        // serialize failure => (InternalError, Ignore)
+        if SER_CALLS.load(Relaxed) == 1 && !r.responded {
+            assert!(REG_REASON.load(Relaxed) == R_INTERNAL && resp == S_IGNORE);
+        }
+        // reasons
+        if REG_REASON.load(Relaxed) == R_RATELIMIT {
+            assert!(spec_lists(&r.cfg) == ListVerdict::Pass && !CACHE_RES.load(Relaxed) && !r.responded);
+        }
+        if REG_REASON.load(Relaxed) == R_PARSE {
+            assert!(!r.responded && DESER_CALLS.load(Relaxed) == 1);
+        }
+        if REG_REASON.load(Relaxed) == R_CRYPTO {
+            assert!(GEN_KIND.load(Relaxed) == GEN_DECRYPT_ERR && resp == S_NAK);
+        }
+        kani::cover!(resp == S_TIME, "time registered");
+        kani::cover!(resp == S_DENY, "deny registered");
+        cover_fam!(fam, false, resp == S_NAK, "nak registered");
+        kani::cover!(REG_REASON.load(Relaxed) == R_INTERNAL, "serialize failure registered");
+    }
+}
+handle_harness! {
+    // NTS flag never set for plain requests
+    fn c21_tp_nts_flag_never_for_plain_plain() fn c21_tp_nts_flag_never_for_plain_nts() with fam {
+        let _r = run_handle(false, fam);
+        let g = GEN_KIND.load(Relaxed);
+        if g == GEN_PLAIN || g == GEN_ERR || DESER_CALLS.load(Relaxed) == 0 {
+            assert!(!REG_NTS.load(Relaxed), "NTS flag never set for plain (or unparsed) requests");
+        }
+        cover_fam!(fam, false, g == GEN_PLAIN && REG_RESPONSE.load(Relaxed) == S_TIME, "plain time");
+    }
+}
+handle_harness! {
+    // NTS flag set for every answered NTS request whose authentication succeeded
+    fn c21_tp_nts_flag_for_answered_authenticated_plain() fn c21_tp_nts_flag_for_answered_authenticated_nts() with fam {
+        let r = run_handle(false, fam);
+        if r.responded && GEN_KIND.load(Relaxed) == GEN_NTS {
+            assert!(REG_NTS.load(Relaxed));
+        }
+        cover_fam!(fam, true, r.responded && GEN_KIND.load(Relaxed) == GEN_NTS && REG_RESPONSE.load(Relaxed) == S_DENY, "nts deny");
+    }
+}
+handle_harness! {
+    // NTS flag set for every answered NTS request, including those answered after a decrypt failure
+    fn c21_tp_nts_flag_for_every_answered_nts_plain() fn c21_tp_nts_flag_for_every_answered_nts_nts() with fam {
+        let r = run_handle(false, fam);
+        let g = GEN_KIND.load(Relaxed);
+        if r.responded && (g == GEN_NTS || g == GEN_DECRYPT_ERR) {
+            assert!(REG_NTS.load(Relaxed), "NTS flag set for every NTS request that is answered");
+        }
+        cover_fam!(fam, false, r.responded && g == GEN_DECRYPT_ERR, "answered after decrypt failure");
+    }
+}
+handle_harness! {
+    fn c21_canary_never_ignored_plain() fn c21_canary_never_ignored_nts() with fam {
+        let _r = run_handle(false, fam);
+        assert!(REG_RESPONSE.load(Relaxed) != S_IGNORE, "CANARY: must be refuted");
+    }
+}
+
+handle_harness_one! { fam = false;
+    // obligation at handle_inner level (thorough tier: did not finish in 20 min) (plain family): handle_inner registers exactly once
+    // on every Err (ignored) path and never on the Ok path (handle registers after serializing)
+    fn c21_tp_handle_inner_registers_iff_ignored() {
+        let (mut srv, _cfg) = any_server(0);
+        let ip = any_ip();
+        arm_ghosts(&srv, ip, fam);
+        let msg: [u8; 8] = kani::any();
+        let mut stats = RecStats;
+        let r = srv.handle_inner(ip, NtpTimestamp::from_bits(kani::any()), &msg, &mut stats);
+        let ignored = r.is_err();
+        assert!(REG_CALLS.load(Relaxed) == if ignored { 1 } else { 0 });
+        if ignored {
+            assert!(REG_RESPONSE.load(Relaxed) == S_IGNORE && BUILT.load(Relaxed) == B_NONE);
+        } else {
+            assert!(BUILD_CALLS.load(Relaxed) == 1);
+        }
+        kani::cover!(ignored, "ignored");
+        kani::cover!(!ignored, "answer prepared");
+    }
+}
+
+// ================================================================ C19 (server side)
+handle_harness! {
+    // decrypt failure => action in {NTSNak, Deny}; never time; cipher choice
+    fn c19_tp_decrypt_error_never_time_plain() fn c19_tp_decrypt_error_never_time_nts() with fam {
+        let r = run_handle(false, fam);
+        let g = GEN_KIND.load(Relaxed);
+        let b = BUILT.load(Relaxed);
+        if g == GEN_DECRYPT_ERR {
+            assert!(!built_time(), "failed NTS authentication is never answered with time");
+            assert!(b == B_NONE || b == B_NTS_NAK || b == B_DENY);
+            if r.responded {
+                let resp = REG_RESPONSE.load(Relaxed);
+                assert!(resp == S_NAK || resp == S_DENY);
+                // DENY only if policy denies the client
+                if resp == S_DENY {
+                    assert!(spec_lists(&r.cfg) == ListVerdict::Deny);
+                }
+            }
+            if SER_CALLS.load(Relaxed) == 1 {
+                assert!(SER_CIPHER_TAG.load(Relaxed) == 0, "no key is used for an unauthenticated request");
+            }
+        }
+        // answers to authenticated requests are protected with the cookie's server-to-client key
+        if SER_CALLS.load(Relaxed) == 1 {
+            let tag = SER_CIPHER_TAG.load(Relaxed);
+            // the key handed to the serializer is the cookie's s2c key exactly for authenticated requests
+            assert!(tag == if g == GEN_NTS { S2C_TAG } else { 0 });
+            assert!((b == B_NTS_TIME || b == B_NTS_DENY) == (g == GEN_NTS));
+            if b == B_NTS_TIME {
+                assert!(BUILD_COOKIE_TAG.load(Relaxed) == S2C_TAG);
+            }
+        }
+        cover_fam!(fam, false, g == GEN_DECRYPT_ERR && r.responded && REG_RESPONSE.load(Relaxed) == S_NAK, "NAK sent");
+        cover_fam!(fam, false, g == GEN_DECRYPT_ERR && r.responded && REG_RESPONSE.load(Relaxed) == S_DENY, "DENY sent on decrypt failure");
+        cover_fam!(fam, true, b == B_NTS_TIME && r.responded, "authenticated time answer");
+    }
+}
+handle_harness! {
+    fn c19_canary_decrypt_error_never_answered_plain() fn c19_canary_decrypt_error_never_answered_nts() with fam {
+        let r = run_handle(false, fam);
+        if GEN_KIND.load(Relaxed) == GEN_DECRYPT_ERR {
+            assert!(!r.responded, "CANARY: must be refuted");
+        }
+    }
+}
+
+// ================================================================ C22 (server side)
+handle_harness! {
+    // handle/handle_inner/intended_action return normally for every configuration, address, parser
+    // outcome, serializer outcome and buffer (panics, overflow and slice checks are Kani obligations)
+    fn c22_tp_handle_total_under_callee_contracts_plain() fn c22_tp_handle_total_under_callee_contracts_nts() with fam {
+        let r = run_handle(false, fam);
+        assert!(REG_CALLS.load(Relaxed) >= 1);
+        kani::cover!(r.responded, "answered");
+        kani::cover!(!r.responded && SER_CALLS.load(Relaxed) == 1, "serialize failed");
+        kani::cover!(r.req_len == 0, "empty datagram");
+    }
+}
+handle_harness! {
+    fn c22_canary_never_responds_plain() fn c22_canary_never_responds_nts() with fam {
+        let r = run_handle(false, fam);
+        assert!(!r.responded, "CANARY: must be refuted");
+    }
+}
+
+// ================================================================ C20 TimestampedCache
+// index(): memoised uninterpreted function. The harness knows the argument of each call, so the
+// table is indexed by call number; consistency (equal items => equal slot) is set up by the harness.
+static IDX_SEQ0: AtomicUsize = AtomicUsize::new(0);
+static IDX_SEQ1: AtomicUsize = AtomicUsize::new(0);
+static IDX_SEQ2: AtomicUsize = AtomicUsize::new(0);
+static IDX_CALLS: AtomicU8 = AtomicU8::new(0);
+fn index_uf<T: std::hash::Hash + Eq>(this: &TimestampedCache<T>, _item: &T) -> usize {
+    let k = IDX_CALLS.load(Relaxed);
+    bump(&IDX_CALLS);
+    let i = match k {
+        0 => IDX_SEQ0.load(Relaxed),
+        1 => IDX_SEQ1.load(Relaxed),
+        _ => IDX_SEQ2.load(Relaxed),
+    };
+    // contract of index (proved in c20_b_index_in_bounds): result < len
+    assert!(i < this.elements.len());
+    i
+}
+
+const CACHE_MAX: usize = 3;
+fn offs() -> Duration {
+    // offsets from a base instant; < 2^36 s so that Instant + Duration cannot overflow
+    let s: u64 = kani::any();
+    kani::assume(s < (1 << 36));
+    let n: u32 = kani::any();
+    kani::assume(n < 1_000_000_000);
+    Duration::new(s, n)
+}
+fn elapsed(from: Duration, to: Duration) -> Duration {
+    // mathematical "to - from", clamped at zero (Instant::duration_since saturates)
+    to.checked_sub(from).unwrap_or(Duration::ZERO)
+}
+fn any_slot(base: Instant) -> Option<(IpAddr, Instant)> {
+    if kani::any() {
+        Some((any_ip(), base + offs()))
+    } else {
+        None
+    }
+}
+fn any_cache(n: usize, base: Instant) -> TimestampedCache<IpAddr> {
+    // n <= CACHE_MAX slots with arbitrary contents (literal + truncate: no reallocation, no loop)
+    let mut elements = vec![any_slot(base), any_slot(base), any_slot(base)];
+    elements.truncate(n);
+    TimestampedCache { randomstate: RandomState::new(), elements }
+}
+
+harness! {
+    // one call, a cache of 3 slots with arbitrary contents, any slot index, any item, any two instants, any cutoff
+    // bound: cache length == 3 (the function is loop-free; only the frame "all other slots unchanged"
+    // depends on the length; length 1 is c20_p_cutoff_boundary, length 2 the history harness)
+    #[kani::unwind(18)]
+    #[kani::stub(TimestampedCache::index, index_uf)]
+    fn c20_b_is_allowed_contract() {
+        let base = Instant::now();
+        let mut c = any_cache(CACHE_MAX, base);
+        let i: usize = kani::any();
+        kani::assume(i < CACHE_MAX);
+        IDX_SEQ0.store(i, Relaxed);
+        let item = any_ip();
+        let ts = base + offs();
+        let cutoff = any_duration();
+        let old = [c.elements[0], c.elements[1], c.elements[2]];
+        let r = c.is_allowed(item, ts, cutoff);
+        assert!(IDX_CALLS.load(Relaxed) == 1);
+        // result false <=> old slot i == Some((item, t0)) and ts - t0 < cutoff
+        let limited = match old[i] {
+            Some((it0, t0)) => it0 == item && ts.saturating_duration_since(t0) < cutoff,
+            None => false,
+        };
+        assert!(r == !limited);
+        // slot i updated to (item, ts); all other slots unchanged; length unchanged
+        assert!(c.elements.len() == CACHE_MAX);
+        assert!(c.elements[i] == Some((item, ts)));
+        assert!(i == 0 || c.elements[0] == old[0]);
+        assert!(i == 1 || c.elements[1] == old[1]);
+        assert!(i == 2 || c.elements[2] == old[2]);
+        kani::cover!(!r, "rate limited");
+        kani::cover!(r && matches!(old[i], Some((it0, _)) if it0 == item), "same client after the cutoff");
+        kani::cover!(r && matches!(old[i], Some((it0, _)) if it0 != item), "slot taken over from another client");
+        kani::cover!(i == 1, "middle slot of three");
+    }
+}
+
+harness! {
+    // the boundary is exactly the cutoff, measured on the offsets (independent of Instant's own subtraction)
+    #[kani::unwind(18)]
+    #[kani::stub(TimestampedCache::index, index_uf)]
+    fn c20_p_cutoff_boundary() {
+        let base = Instant::now();
+        let item = any_ip();
+        let d0 = offs();
+        let d1 = offs();
+        let cutoff = any_duration();
+        let mut c: TimestampedCache<IpAddr> = TimestampedCache {
+            randomstate: RandomState::new(),
+            elements: vec![Some((item, base + d0))],
+        };
+        IDX_SEQ0.store(0, Relaxed);
+        let r = c.is_allowed(item, base + d1, cutoff);
+        assert!(r == !(elapsed(d0, d1) < cutoff));
+        if cutoff == Duration::ZERO {
+            assert!(r, "cutoff zero never limits");
+        }
+        kani::cover!(!r && d1 > d0, "limited");
+        kani::cover!(r && elapsed(d0, d1) == cutoff && cutoff > Duration::ZERO, "exactly at the cutoff: allowed");
+    }
+}
+
+harness! {
+    // cache disabled (no slots): always allowed, nothing stored, index never consulted
+    #[kani::unwind(18)]
+    #[kani::stub(TimestampedCache::index, index_uf)]
+    fn c20_p_empty_cache_never_limits() {
+        let base = Instant::now();
+        let mut c = any_cache(0, base);
+        let r1 = c.is_allowed(any_ip(), base + offs(), any_duration());
+        let r2 = c.is_allowed(any_ip(), base + offs(), any_duration());
+        assert!(r1 && r2);
+        assert!(c.elements.is_empty() && IDX_CALLS.load(Relaxed) == 0);
+        kani::cover!(true, "reachable");
+    }
+}
+
+harness! {
+    // cache size 0 (the configuration value reaches new() unchanged, see anchors): no slots, never limited
+    #[kani::unwind(18)]
+    fn c20_p_new_zero_never_limits() {
+        let mut c: TimestampedCache<IpAddr> = TimestampedCache::new(0);
+        assert!(c.elements.is_empty());
+        let base = Instant::now();
+        let ip = any_ip();
+        assert!(c.is_allowed(ip, base, any_duration()));
+        assert!(c.is_allowed(ip, base, any_duration()));
+        assert!(c.elements.is_empty());
+        kani::cover!(true, "reachable");
+    }
+}
+
+harness! {
+    // TimestampedCache::new(n): n empty slots; bound: n in {1, 3}
+    #[kani::unwind(18)]
+    fn c20_b_new_makes_empty_slots() {
+        let c1: TimestampedCache<IpAddr> = TimestampedCache::new(1);
+        assert!(c1.elements.len() == 1 && c1.elements[0].is_none());
+        let c3: TimestampedCache<IpAddr> = TimestampedCache::new(3);
+        assert!(c3.elements.len() == 3);
+        assert!(c3.elements[0].is_none() && c3.elements[1].is_none() && c3.elements[2].is_none());
+        kani::cover!(true, "reachable");
+    }
+}
+
+harness! {
+    // index: any hash value (the shim's hash is an arbitrary u64), any non-empty cache => result < len, no panic
+    #[kani::unwind(18)]
+    fn c20_b_index_in_bounds() {
+        let base = Instant::now();
+        let n: usize = kani::any();
+        kani::assume(n >= 1 && n <= CACHE_MAX);
+        let c = any_cache(n, base);
+        let i = c.index(&any_ip());
+        assert!(i < n);
+        kani::cover!(i == n - 1 && n == CACHE_MAX, "last slot");
+    }
+}
+
+harness! {
+    // history lemma over the real code, three requests a@t1, x@t2, a@t3 (x arbitrary, possibly = a,
+    // possibly sharing a's slot), cache of 2 slots with arbitrary contents:
+    #[kani::unwind(18)]
+    #[kani::stub(TimestampedCache::index, index_uf)]
+    fn c20_tb_history_three_requests() {
+        let base = Instant::now();
+        let n: usize = 2;
+        let mut c = any_cache(n, base);
+        let a = any_ip();
+        let x = any_ip();
+        let ia: usize = kani::any();
+        let ix: usize = kani::any();
+        kani::assume(ia < n && ix < n);
+        kani::assume(a != x || ia == ix); // index is a function of the item
+        IDX_SEQ0.store(ia, Relaxed);
+        IDX_SEQ1.store(ix, Relaxed);
+        IDX_SEQ2.store(ia, Relaxed);
+        let (d1, d2, d3) = (offs(), offs(), offs());
+        kani::assume(d1 <= d2 && d2 <= d3); // arrival order
+        let cutoff = any_duration();
+        let _r1 = c.is_allowed(a, base + d1, cutoff);
+        let _r2 = c.is_allowed(x, base + d2, cutoff);
+        let r3 = c.is_allowed(a, base + d3, cutoff);
+        if x == a {
+            assert!(r3 == !(elapsed(d2, d3) < cutoff));
+        } else if ix == ia {
+            assert!(r3, "another address used the slot in between: not limited");
+        } else {
+            assert!(r3 == !(elapsed(d1, d3) < cutoff), "limited iff own previous request within the cutoff");
+        }
+        // never limited unless the client's own previous request was within the cutoff
+        if !r3 {
+            let prev = if x == a { d2 } else { d1 };
+            assert!(elapsed(prev, d3) < cutoff);
+        }
+        kani::cover!(!r3 && x != a, "limited with an unrelated request in between");
+        kani::cover!(r3 && x != a && ix == ia && elapsed(d1, d3) < cutoff, "slot stolen: allowed inside the cutoff");
+    }
+}
+
+harness! {
+    // intended_action feeds the REAL cache (one slot, real index) with the client's address and the
+    // current instant, and only after both lists passed
+    #[kani::unwind(18)]
+    #[kani::stub(IpFilter::is_in, is_in_stub)]
+    fn c20_p_intended_action_records_client() {
+        let (mut srv, _cfg) = any_server(1);
+        let ip = any_ip();
+        arm_ghosts(&srv, ip, false);
+        let before = Instant::now();
+        let (resp1, reason1) = srv.intended_action(ip);
+        let passed = !IN_DENY.load(Relaxed) && IN_ALLOW.load(Relaxed);
+        if passed {
+            assert!(resp1 == ServerResponse::ProvideTime, "first request into an empty cache is served");
+            assert!(matches!(srv.client_cache.elements[0], Some((it, t)) if it == ip && t >= before));
+        } else {
+            assert!(srv.client_cache.elements[0].is_none(), "listed clients do not touch the cache");
+            assert!(reason1 == ServerReason::Policy);
+        }
+        kani::cover!(passed, "passed");
+        kani::cover!(!passed, "listed");
+    }
+}
+
+harness! {
+    // ... and a client whose previous accepted request is in the slot is limited exactly when less
+    // than the configured cutoff elapsed (real cache, real clock model)
+    #[kani::unwind(18)]
+    #[kani::stub(IpFilter::is_in, is_in_stub)]
+    fn c20_p_intended_action_limits_by_cutoff() {
+        let (mut srv, _cfg) = any_server(1);
+        let ip = any_ip();
+        arm_ghosts(&srv, ip, false);
+        IN_DENY.store(false, Relaxed);
+        IN_ALLOW.store(true, Relaxed);
+        let cutoff = srv.config.rate_limiting_cutoff;
+        let t0 = Instant::now();
+        srv.client_cache.elements[0] = Some((ip, t0));
+        let (resp2, reason2) = srv.intended_action(ip);
+        let t1 = srv.client_cache.elements[0].unwrap().1;
+        let limited = t1.saturating_duration_since(t0) < cutoff;
+        assert!((resp2 == ServerResponse::Ignore && reason2 == ServerReason::RateLimit) == limited);
+        assert!((resp2 == ServerResponse::ProvideTime && reason2 == ServerReason::Policy) == !limited);
+        kani::cover!(limited, "second request limited");
+        kani::cover!(!limited, "second request served");
+    }
+}
+
+harness! {
+    #[kani::unwind(18)]
+    #[kani::stub(TimestampedCache::index, index_uf)]
+    fn c20_canary_never_limited() {
+        let base = Instant::now();
+        let mut c = any_cache(1, base);
+        IDX_SEQ0.store(0, Relaxed);
+        let r = c.is_allowed(any_ip(), base + offs(), any_duration());
+        assert!(r, "CANARY: must be refuted");
+    }
+}
 
 #[cfg(all(kani, test))]
 mod replay {
